@@ -3,6 +3,7 @@ CONSTANTS
   KMax = 1
   MaxSteps = 4
   WithObs = TRUE
+  PurgeByKey = FALSE
   PurgeLast = FALSE
   Kinds = {"pos", "fail", "cut", "ask"}
 INIT Init
